@@ -1,10 +1,11 @@
-(** C02 — unsigned division and remainder. Statements only.
-    Proved for all widths: the Moeller-Granlund 2-by-1 kernel, the shift-with-carry normalisation, and the complete
-    division of an arbitrary-length dividend by one limb (div_rem_limb / rem_limb / with_reciprocal, fixed and boxed),
-    all GIVEN [recip_ok] (the 64-bit Newton reciprocal equals floor((B^2-1)/d) - B; checked on every case at run time).
-    The multi-limb Knuth loops (ct, vartime, wide, boxed in-place) are modelled faithfully in Model/Div.v and tied to the
-    code and to the specification n = q*d + r by the correspondence only: C02_knuth_partial below says what is missing. *)
-From CB Require Import Model.Limbs Model.Div Proofs.WordP Proofs.LimbsP Proofs.DivP.
+(** C02 — unsigned division and remainder. Statements only (proofs in Proofs/Div*.v, KnuthStepP.v, RemWideP.v, Rem2kP.v,
+    Recip*.v). Everything is proved for ALL limb counts / word values about the executable model Model/Div.v:
+    the Moeller-Granlund 2-by-1 kernel and its Newton reciprocal (reciprocal_correct: no assumption left), the 3-by-2
+    quotient estimate (Knuth Theorem B), the multiply-subtract / add-back step, and on top of them every division routine:
+    division by one limb, Uint::div_rem (constant time), Uint::div_rem_vartime (mixed widths), BoxedUint
+    div_rem_vartime_in_place / div_rem_vartime / rem_vartime / div_rem, Uint::rem_wide_vartime and rem2k_vartime. *)
+From CB Require Import Model.Limbs Model.Div Proofs.WordP Proofs.LimbsP Proofs.DivP Proofs.Div3by2P Proofs.KnuthStepP
+  Proofs.DivShiftP Proofs.DivVtP Proofs.DivBoxedP Proofs.RemWideP Proofs.DivCtP Proofs.Rem2kP Proofs.RecipP Proofs.DivFinalP.
 From Coq Require Import ZArith List.
 Open Scope Z_scope.
 
@@ -41,11 +42,173 @@ Theorem C02_reciprocal_new_partial : forall d,
 Proof. exact recip_new_for. Qed.
 Print Assumptions C02_reciprocal_new_partial.
 
-(** non-vacuity: the hypotheses hold for real reciprocals, including the extreme divisors, and the model divides
-    a 3-limb value whose Knuth step needs the add-back *)
+(** 3-by-2 quotient estimate (Knuth D3 / Theorem B): exact quotient of the top three dividend limbs by the top two
+    divisor limbs, capped at B - 1 *)
+Theorem C02_div3by2_exact : forall u2 u1 u0 rc v0,
+  normalized (r_d rc) -> recip_ok (r_d rc) (r_v rc) ->
+  is_word u1 -> is_word u0 -> is_word v0 -> 0 <= u2 <= r_d rc ->
+  div3by2 u2 u1 u0 rc v0 = Z.min ((u2 * B * B + u1 * B + u0) / (r_d rc * B + v0)) (B - 1).
+Proof. exact div3by2_correct. Qed.
+Print Assumptions C02_div3by2_exact.
+
+(** multiply-subtract + masked add-back on the window xw of x (x_hi on top) against the window yw of y, ANY digit quo:
+    the mask tells whether quo * Y > W and the window ends up holding W - quo*Y (+ Y when masked) mod B^cnt *)
+Theorem C02_knuth_step_window : forall x y x_hi base yoff cnt quo xa xw xb ya yw yb,
+  x = xa ++ xw ++ xb -> length xa = base -> length xw = cnt ->
+  y = ya ++ yw ++ yb -> length ya = yoff -> length yw = cnt ->
+  wf xw -> wf yw -> is_word x_hi -> is_word quo ->
+  let W := eval xw + Bn cnt * x_hi in
+  let Y := eval yw in
+  let mask := W <? quo * Y in
+  exists xw'', knuth_step x y x_hi base yoff cnt quo = (xa ++ xw'' ++ xb, mask) /\
+    wf xw'' /\ length xw'' = cnt /\
+    eval xw'' = (W - quo * Y + (if mask then Y else 0)) mod Bn cnt.
+Proof. exact knuth_step_window. Qed.
+Print Assumptions C02_knuth_step_window.
+
+(** with a digit that is the true one or one too large: exact partial remainder, corrected digit = floor(W / Y) *)
+Theorem C02_knuth_step_exact : forall x y x_hi base yoff cnt quo xa xw xb ya yw yb,
+  x = xa ++ xw ++ xb -> length xa = base -> length xw = cnt ->
+  y = ya ++ yw ++ yb -> length ya = yoff -> length yw = cnt ->
+  wf xw -> wf yw -> is_word x_hi -> is_word quo ->
+  let W := eval xw + Bn cnt * x_hi in
+  let Y := eval yw in
+  (quo - 1) * Y <= W < (quo + 1) * Y ->
+  exists xw'' mask, knuth_step x y x_hi base yoff cnt quo = (xa ++ xw'' ++ xb, mask) /\
+    wf xw'' /\ length xw'' = cnt /\
+    let q := if mask then quo - 1 else quo in
+    W = q * Y + eval xw'' /\ 0 <= eval xw'' < Y /\ q = W / Y /\ eval xw'' = W mod Y /\ 0 <= q /\
+    sel mask quo (wsub quo 1) = q /\ sel mask quo (if quo =? 0 then 0 else quo - 1) = q.
+Proof. exact knuth_step_exact. Qed.
+Print Assumptions C02_knuth_step_exact.
+
+(** the div3by2 digit of a window below Y * B is the true digit or one more (so the add-back happens at most once) *)
+Theorem C02_knuth_digit : forall k xl u0 u1 x_hi yl v0 d rc,
+  length xl = k -> wf xl -> is_word u0 -> is_word u1 -> is_word x_hi ->
+  length yl = k -> wf yl -> is_word v0 -> r_d rc = d -> normalized d -> recip_ok d (r_v rc) ->
+  let Y := eval (yl ++ [v0; d]) in
+  let W := eval (xl ++ [u0; u1]) + Bn (S (S k)) * x_hi in
+  W < Y * B ->
+  let quo := div3by2 x_hi u1 u0 rc v0 in
+  (quo - 1) * Y <= W < (quo + 1) * Y /\ is_word quo.
+Proof. exact knuth_digit. Qed.
+Print Assumptions C02_knuth_digit.
+
+(** the 64-bit Newton reciprocal (Moeller-Granlund, Algorithm 3) is exact for every normalised divisor *)
+Theorem C02_reciprocal_correct : forall d, 2 ^ 63 <= d < 2 ^ 64 -> recip_ok d (reciprocal d).
+Proof. exact reciprocal_correct. Qed.
+Print Assumptions C02_reciprocal_correct.
+
+(** Reciprocal::new: shift, normalised divisor and reciprocal are right for every non-zero limb *)
+Theorem C02_reciprocal_new : forall d, 0 < d < B -> recip_for d (recip_new d).
+Proof. exact recip_new_correct. Qed.
+Print Assumptions C02_reciprocal_new.
+
+(** div_rem_limb / rem_limb / div_limb (Uint and BoxedUint): any number of dividend limbs, any non-zero limb divisor *)
+Theorem C02_div_rem_limb : forall u d, wf u -> 0 < d < B ->
+  let '(q, r) := div_rem_limb_with_reciprocal u (recip_new d) in
+  eval u = eval q * d + r /\ 0 <= r < d /\ wf q /\ length q = length u.
+Proof. exact div_rem_limb_total. Qed.
+Print Assumptions C02_div_rem_limb.
+
+(** Uint::div_rem_vartime, all three branches (single-limb divisor, divisor longer than the dividend, Knuth loop with
+    shl_limb_vartime normalisation and shr_limb_vartime denormalisation), every pair of widths *)
+Theorem C02_div_rem_vartime : forall x0 y0 q r,
+  wf x0 -> wf y0 -> eval y0 <> 0 -> div_rem_vartime x0 y0 = (q, r) ->
+  eval x0 = eval q * eval y0 + eval r /\ 0 <= eval r < eval y0 /\
+  length q = length x0 /\ length r = length y0 /\ wf q /\ wf r.
+Proof. exact div_rem_vartime_total. Qed.
+Print Assumptions C02_div_rem_vartime.
+
+Theorem C02_div_rem_vartime_is_divmod : forall x0 y0 q r,
+  wf x0 -> wf y0 -> eval y0 <> 0 -> div_rem_vartime x0 y0 = (q, r) ->
+  eval q = eval x0 / eval y0 /\ eval r = eval x0 mod eval y0.
+Proof. exact div_rem_vartime_divmod. Qed.
+Print Assumptions C02_div_rem_vartime_is_divmod.
+
+(** the same statement relative to the reciprocal actually used: only the reciprocal of the normalised leading divisor
+    word top64 (eval y0) matters (this is the form that does not depend on reciprocal_correct) *)
+Theorem C02_div_rem_vartime_given_recip : forall x0 y0 q r,
+  wf x0 -> wf y0 -> eval y0 <> 0 ->
+  recip_ok (top64 (eval y0)) (reciprocal (top64 (eval y0))) ->
+  div_rem_vartime x0 y0 = (q, r) ->
+  eval x0 = eval q * eval y0 + eval r /\ 0 <= eval r < eval y0 /\
+  length q = length x0 /\ length r = length y0 /\ wf q /\ wf r.
+Proof. exact div_rem_vartime_correct. Qed.
+Print Assumptions C02_div_rem_vartime_given_recip.
+
+(** BoxedUint: div_rem_vartime_in_place on slices (divisor slice with non-zero leading limb, at least two limbs) *)
+Theorem C02_boxed_div_rem_in_place : forall x0 y0 q r,
+  wf x0 -> wf y0 -> (2 <= length y0)%nat -> nthz y0 (length y0 - 1) <> 0 ->
+  boxed_div_rem_in_place x0 y0 = (q, r) ->
+  eval x0 = eval q * eval y0 + eval r /\ 0 <= eval r < eval y0 /\
+  length q = length x0 /\ length r = length y0 /\ wf q /\ wf r.
+Proof. exact boxed_div_rem_in_place_total. Qed.
+Print Assumptions C02_boxed_div_rem_in_place.
+
+Theorem C02_boxed_div_rem_vartime : forall x0 y0,
+  wf x0 -> wf y0 -> eval y0 <> 0 ->
+  exists q r, boxed_div_rem_vartime x0 y0 = Some (q, r) /\
+  eval x0 = eval q * eval y0 + eval r /\ 0 <= eval r < eval y0 /\
+  length q = length x0 /\ length r = length y0 /\ wf q /\ wf r.
+Proof. exact boxed_div_rem_vartime_total. Qed.
+Print Assumptions C02_boxed_div_rem_vartime.
+
+Theorem C02_boxed_rem_vartime : forall x0 y0,
+  wf x0 -> wf y0 -> eval y0 <> 0 ->
+  exists r, boxed_rem_vartime x0 y0 = Some r /\
+  eval r = eval x0 mod eval y0 /\ length r = length y0 /\ wf r.
+Proof. exact boxed_rem_vartime_total. Qed.
+Print Assumptions C02_boxed_rem_vartime.
+
+(** Uint::div_rem, constant-time variant (fixed trip count, `done` masking, limb_div tail, value-level shifts) *)
+Theorem C02_uint_div_rem : forall x0 y0,
+  wf x0 -> wf y0 -> length y0 = length x0 -> eval y0 <> 0 ->
+  exists q r, uint_div_rem x0 y0 = Some (q, r) /\
+  eval x0 = eval q * eval y0 + eval r /\ 0 <= eval r < eval y0 /\
+  length q = length x0 /\ length r = length x0 /\ wf q /\ wf r.
+Proof. exact uint_div_rem_total. Qed.
+Print Assumptions C02_uint_div_rem.
+
+(** a zero divisor is rejected (the model's None = the documented panic) *)
+Theorem C02_uint_div_rem_zero : forall x0 y0, wf y0 -> length y0 = length x0 -> eval y0 = 0 -> uint_div_rem x0 y0 = None.
+Proof. exact uint_div_rem_zero. Qed.
+Print Assumptions C02_uint_div_rem_zero.
+
+(** BoxedUint::div_rem (constant time, equal precisions) *)
+Theorem C02_boxed_div_rem : forall x0 y0,
+  wf x0 -> wf y0 -> length y0 = length x0 -> eval y0 <> 0 ->
+  exists q r, boxed_div_rem x0 y0 = Some (q, r) /\
+  eval x0 = eval q * eval y0 + eval r /\ 0 <= eval r < eval y0 /\
+  length q = length x0 /\ length r = length x0 /\ wf q /\ wf r.
+Proof. exact boxed_div_rem_total. Qed.
+Print Assumptions C02_boxed_div_rem.
+
+(** Uint::rem_wide_vartime: remainder of the double-width value (lo, hi) *)
+Theorem C02_rem_wide_vartime : forall lo hi y0,
+  wf lo -> wf hi -> wf y0 -> length hi = length lo -> length y0 = length lo -> eval y0 <> 0 ->
+  let r := rem_wide_vartime lo hi y0 in
+  eval r = (eval lo + Bn (length lo) * eval hi) mod eval y0 /\ length r = length lo /\ wf r.
+Proof. exact rem_wide_vartime_total. Qed.
+Print Assumptions C02_rem_wide_vartime.
+
+(** rem2k_vartime: x mod 2^k, or x itself when k >= BITS *)
+Theorem C02_rem2k_vartime : forall x k, wf x -> x <> [] -> 0 <= k ->
+  eval (rem2k_vartime x k) = (if 64 * Z.of_nat (length x) <=? k then eval x else eval x mod 2 ^ k)
+  /\ wf (rem2k_vartime x k) /\ length (rem2k_vartime x k) = length x.
+Proof. exact rem2k_vartime_correct. Qed.
+Print Assumptions C02_rem2k_vartime.
+
+(** non-vacuity: the hypotheses hold for real reciprocals, including the extreme divisors, and the models divide
+    values whose Knuth step needs the add-back / whose estimate is capped *)
 Example C02_nonvacuous :
   recip_ok (2 ^ 63) (reciprocal (2 ^ 63)) /\ recip_ok MAXW (reciprocal MAXW) /\
   recip_ok (2 ^ 63 + 1) (reciprocal (2 ^ 63 + 1)) /\
   div_rem_limb_with_reciprocal [5; 7; 11] (recip_new 3) = ([1; 12297829382473034413; 3], 2) /\
-  div_rem_vartime [MAXW; MAXW; MAXW - 1] [MAXW; MAXW; 0] = ([MAXW; 0; 0], [MAXW - 1; 0; 0]).
+  div_rem_vartime [MAXW; MAXW; MAXW - 1] [MAXW; MAXW; 0] = ([MAXW; 0; 0], [MAXW - 1; 0; 0]) /\
+  uint_div_rem [MAXW; MAXW; MAXW - 1] [MAXW; MAXW; 0] = Some ([MAXW; 0; 0], [MAXW - 1; 0; 0]) /\
+  boxed_div_rem_vartime [0; 0; 2 ^ 63] [1; 2 ^ 63; 0] = Some ([MAXW; 0; 0], [1; 2 ^ 63 - 1; 0]) /\
+  rem_wide_vartime [5; 0] [0; 1] [0; 3] = [5; 1] /\
+  rem2k_vartime [MAXW; MAXW] 65 = [MAXW; 1] /\
+  div3by2 (2 ^ 63) MAXW 0 (recip_new (2 ^ 63)) 0 = MAXW.
 Proof. vm_compute. repeat split; reflexivity. Qed.
